@@ -90,6 +90,25 @@ theorem no_nil_receiver (maxDepth : Nat) (ms : MethodSet) (fns : List FnSpec) (b
   obtain ⟨_, lv, hlv, hb⟩ := marshal_methods_at_base maxDepth ms fns beh legacy levels 0 m _ h k l rfl
   exact ⟨lv, by simpa using hlv, hb⟩
 
+/-- `no_nil_receiver` (unmarshal): UnmarshalJSONFrom/UnmarshalJSON/UnmarshalText are only ever invoked at the level of
+`T` itself — after the pointer arshaler has allocated a nil pointer — never on a pointer or interface level. -/
+theorem no_nil_receiver_unmarshal (maxDepth : Nat) (ms : UMethodSet) (fns : List FnSpec) (beh : Behav) (legacy : Bool)
+    (levels : List Level) (m : Machine) (k : Meth) (l : Nat)
+    (h : Cand.meth k l ∈ (unmarshalLevels maxDepth ms fns beh legacy levels 0 m).trace) :
+    ∃ lv, levels[l]? = some lv ∧ lv.kind = .base := by
+  obtain ⟨_, lv, hlv, hb⟩ := unmarshal_methods_at_base maxDepth ms fns beh legacy levels 0 m _ h k l rfl
+  exact ⟨lv, by simpa using hlv, hb⟩
+
+/-- The hypothesis is satisfiable: behind a non-nil pointer the pointer-receiver method IS called (at level 1, the
+type itself); behind a nil pointer nothing is called and the result is null. -/
+example :
+    let ms : MethodSet := { js := .pointer }
+    let beh : Behav := fun _ _ => .done
+    marshalLevels 10000 ms [] beh false [{ kind := .ptr }, { kind := .base }] 0 Machine.init =
+      ⟨[.meth .js 1], .ok (.cand (.meth .js 1))⟩ ∧
+    marshalLevels 10000 ms [] beh false [{ kind := .ptr, isNil := true }, { kind := .base }] 0 Machine.init =
+      ⟨[], .ok (.null 0)⟩ := by decide
+
 /-- A nil pointer or nil interface ends the descent: nothing below it is looked up or called, and (unless a
 caller-supplied function on `any` takes the pointer itself) the result is `null`. -/
 theorem nil_stops (maxDepth : Nat) (ms : MethodSet) (fns : List FnSpec) (beh : Behav) (legacy : Bool)
